@@ -49,6 +49,8 @@ pub fn enum_roundtrip(_s: u64) -> Vec<String> {
         // facts: atoms, integers, floats with a fractional part, variables, $_, atoms with spaces
         "p(a).", "parent(Alice, Bob).", "n(1, -3, 2.5, -0.25).", "v($X, $Y, $X).", "w($_, a).", "name(Harry Potter, wizard).",
         "one(a).", "five(a, b, c, d, e).",
+        // floats with a fractional part of every size
+        "f(0.5, 100.25, 0.001, 0.00005).", "tolerance(bolt, 0.000025, -0.0000001).", "g(123456789.125, 3.14159).", "r($D) :- $D = 0.00001.",
         // lists with optional tail variable, nested terms
         "l([]).", "l([a, b, c]).", "l([a, $X | $T]).", "l([[a, b], [c]]).", "l([$H | $T], $H).", "t(f(g(a), $X), [f(a)]).",
         // conjunction, disjunction (and binds tighter than or)
